@@ -16,6 +16,17 @@ Tie to the code, on every run:
      optimisers: final x / y / y_err / mu_max equal Model.Optimiser.add_all exactly;
      proposals inside the bounds [R]; the next model is fitted to the grown data [R];
      every array the caller passed in is compared bytes / shape / dtype before and after.
+ (d) [vm_compute + interval goals + R] WORLDS: two or three GpOptimiser objects alive in one
+     process, built with the default acquisition (argument omitted), a class, or an instance
+     made by the caller, their construction / propose / add calls interleaved.  After EVERY
+     operation EVERY optimiser is observed (x, y, y_err, mu_max, what its acquisition object
+     holds: incumbent, whose regressor, how many points) and must equal
+     Model.OptimiserWorld.wstep; the acquisition value / objective / gradient of every optimiser
+     at a query point is checked against ITS OWN regressor and ITS OWN incumbent (interval
+     goals on a sample, definition by quadrature on all), operations on one optimiser must
+     leave the others bit-for-bit as they were.
+ Configuration values (a): UpperConfidenceBound is built with kappa omitted / 0 / 0.0 /
+     int / numpy scalar / positional / small / large: the goal is ucb_call (ucb_kappa arg).
 Property oracle (when something disagrees, and on a sample of agreeing points):
  the definition  E max(f - ymax, 0)  by quadrature of the Gaussian density (scipy.quad in
  the search, coq-interval `integral` enclosure as the machine-checked form), central
@@ -44,17 +55,21 @@ PROP = "C18"
 THEOREMS = ["C18_helpers", "C18_ei_branches_agree", "C18_tail_identity", "C18_ei_antiderivative",
             "C18_ei_nonneg", "C18_ln_ei_gradient", "C18_ucb_gradient", "C18_maxvar_gradient",
             "C18_starts_in_bounds", "C18_add_evaluation_spec", "C18_add_all_spec",
-            "C18_caller_arrays_unchanged", "C18_resize_refuted"]
+            "C18_caller_arrays_unchanged", "C18_resize_refuted",
+            "C18_ucb_configuration", "C18_ucb_falsy_default_refuted",
+            "C18_world_data_own", "C18_world_data_own_new", "C18_world_acquisition_own",
+            "C18_world_defaults_unshared", "C18_world_propose_pure",
+            "C18_world_shared_default_refuted"]
 
 PREAMBLE = """From Coq Require Import Reals Lra.
 From Coquelicot Require Import Coquelicot.
 From Interval Require Import Tactic.
-From IT Require Import RealModel.Acquisition Proofs.AcquisitionProofs.
+From IT Require Import RealModel.Acquisition Proofs.AcquisitionProofs RealModel.AcquisitionConfig.
 Open Scope R_scope.
 """
 
 CASE_HEADER = """From Coq Require Import List QArith.
-From IT Require Import Model.Optimiser.
+From IT Require Import Model.Optimiser Model.OptimiserWorld.
 Import ListNotations.
 Open Scope Q_scope.
 """
@@ -62,6 +77,35 @@ Open Scope Q_scope.
 Z_TARGETS = [-8.0, -7.0, -6.0, -5.0, -4.0, -3.5, -3.1, -3.01, -3.0 - 1e-4, -3.0 - 1e-7, -3.0 - 1e-11,
              -3.0, -3.0 + 1e-11, -3.0 + 1e-7, -3.0 + 1e-4, -2.99, -2.9, -2.5, -2.0, -1.0, -0.25,
              0.0, 0.5, 1.0, 2.0, 3.0, 5.0, 8.0]
+
+
+# how UpperConfidenceBound is constructed: (kind, value).  "default" omits the argument (the
+# model's ucb_kappa None = 2); every other kind passes the value, which is then the kappa
+# (ucb_kappa (Some value)) -- 0 included, as float, int, numpy scalar and positionally.
+KAPPA_ARGS = [("float", 0.0), ("default", None), ("float", 0.5), ("int", 0), ("float", 2.0),
+              ("npfloat", 0.0), ("float", 3.25), ("pos", 0.0), ("float", 1e-3), ("int", 3),
+              ("float", 1.0), ("npfloat", 16.0), ("pos", 1.5)]
+
+
+def make_ucb(kind, value):
+    *_, UCB, _ = impl()
+    if kind == "default":
+        return UCB()
+    if kind == "int":
+        return UCB(kappa=int(value))
+    if kind == "npfloat":
+        return UCB(kappa=np.float64(value))
+    if kind == "pos":
+        return UCB(float(value))
+    return UCB(kappa=float(value))
+
+
+def kappa_expected(kind, value):
+    return 2.0 if kind == "default" else float(value)
+
+
+def kappa_model(kind, value):
+    return "(ucb_kappa None)" if kind == "default" else f"(ucb_kappa (Some {C.cR(float(value))}))"
 
 
 def impl():
@@ -166,7 +210,7 @@ def definition_quad(mu, sig, ymax):
 def simple_goal(gid, model, val, scale):
     v = C.frac(val)
     tol = Fraction(1, 10 ** 12) * C.frac(scale) + Fraction(1, 10 ** 200)
-    return (gid, f"Rabs ({model} - {C.cR(v)}) <= {C.cR(tol)}", "unfold ucb_call, ucb_opt_func, ucb_opt_grad, mv_call, mv_opt_func, mv_opt_grad. interval with (i_prec 120)")
+    return (gid, f"Rabs ({model} - {C.cR(v)}) <= {C.cR(tol)}", "unfold ucb_call, ucb_opt_func, ucb_opt_grad, ucb_kappa, mv_call, mv_opt_func, mv_opt_grad. interval with (i_prec 120)")
 
 
 def acquisition_points(rep, tier):
@@ -176,22 +220,42 @@ def acquisition_points(rep, tier):
     recs, goals = [], []
     n_gp = 1 if tier == "quick" else 3
     zi = 0
+    ki = r.randrange(len(KAPPA_ARGS))       # every way of passing kappa comes round in every run
     for d in (1, 2, 3):
         for g in range(n_gp):
             gp, X, Y, theta = fit_gp(r, d, seed=C.seed() * 1000 + 10 * d + g)
             ei, mv = EI(), MV()
-            kappa = r.choice([0.5, 1.0, 2.0, 3.25])
-            ucb = UCB(kappa=kappa)
-            for a in (ei, ucb, mv):
+            for a in (ei, mv):
                 a.update_gp(gp)
             natural_max = float(ei.mu_max)
             n_q = (len(Z_TARGETS) // (3 * n_gp) + 1) if tier == "quick" else len(Z_TARGETS)
-            for q in range(n_q + (1 if tier == "quick" else 4)):
-                x = np.array([r.uniform(-2.5, 2.5) for _ in range(d)])
+            n_nat = 1 if tier == "quick" else 4
+            for q in range(n_q + n_nat + 1):
+                if q == n_q + n_nat:
+                    # the incumbent is exactly 0.0 (a falsy value): the point with the z nearest 0
+                    cands = [np.array([r.uniform(-2.5, 2.5) for _ in range(d)]) for _ in range(8)]
+                    def _absz(c):
+                        m_, s_ = gp(c)
+                        return abs(float(m_[0])) / float(s_[0]) if float(s_[0]) > 1e-6 else 1e300
+                    x = min(cands, key=_absz)
+                    if not (_absz(x) <= 7.5):
+                        rep.count("EI incumbent=zero skipped (|mu/sigma| > 7.5)")
+                        continue
+                else:
+                    x = np.array([r.uniform(-2.5, 2.5) for _ in range(d)])
                 mu_a, sig_a = gp(x)
                 mu, sig = float(mu_a[0]), float(sig_a[0])
                 if not (sig > 1e-6):
                     continue
+                # UpperConfidenceBound: one way of passing kappa per query point
+                kkind, kval = KAPPA_ARGS[ki % len(KAPPA_ARGS)]
+                ki += 1
+                kappa = kappa_expected(kkind, kval)
+                try:
+                    ucb = make_ucb(kkind, kval)
+                    ucb.update_gp(gp)
+                except Exception as e:
+                    ucb = e
                 dmu_a, dvar_a = gp.spatial_derivatives(x)
                 dmu = np.atleast_1d(np.asarray(dmu_a, dtype=float))
                 dvar = np.atleast_1d(np.asarray(dvar_a, dtype=float))
@@ -199,7 +263,10 @@ def acquisition_points(rep, tier):
                         "theta": theta.tolist(), "mu": mu, "sig": sig,
                         "dmu": dmu.tolist(), "dvar": dvar.tolist()}
                 # ---- EI: natural incumbent if its z is within reach, else steered
-                if q >= n_q:
+                if q == n_q + n_nat:
+                    ymax = 0.0
+                    steer = "zero"
+                elif q >= n_q:
                     ymax = natural_max
                     znat = (mu - ymax) / sig
                     steer = "natural"
@@ -246,24 +313,29 @@ def acquisition_points(rep, tier):
                 # ---- UCB and MaxVariance at the same point
                 for name, a in (("UCB", ucb), ("MV", mv)):
                     try:
+                        if isinstance(a, Exception):
+                            raise a
                         v_call = float(a(x))
                         v_opt = float(a.opt_func(x))
                         fv, fg = a.opt_func_gradient(x)
                         fv = float(np.asarray(fv).reshape(-1)[0]) if np.asarray(fv).size == 1 else None
                         fg = np.atleast_1d(np.asarray(fg, dtype=float))
-                        rec = dict(base, acq=name, kappa=kappa, call=v_call, opt=v_opt, optg_val=fv,
-                                   grad=fg.tolist())
+                        rec = dict(base, acq=name, kappa=kappa, kappa_kind=kkind, kappa_arg=kval,
+                                   call=v_call, opt=v_opt, optg_val=fv, grad=fg.tolist())
                     except Exception as e:
-                        rec = dict(base, acq=name, kappa=kappa, error=repr(e))
+                        rec = dict(base, acq=name, kappa=kappa, kappa_kind=kkind, kappa_arg=kval,
+                                   error=repr(e))
                     k = len(recs)
                     recs.append(rec)
-                    rep.case((name, x.tolist(), kappa, theta.tolist()))
+                    rep.case((name, x.tolist(), kkind, kval, theta.tolist()))
+                    if name == "UCB":
+                        rep.count(f"UCB kappa={kkind}:{kval}")
                     if "error" in rec:
                         continue
                     if fv is None or fg.shape != (d,) or not all(map(math.isfinite, [v_call, v_opt, fv] + fg.tolist())):
                         rec["error"] = "non-finite or mis-shaped output"
                         continue
-                    m, s, kq = C.cR(mu), C.cR(sig), C.cR(kappa)
+                    m, s, kq = C.cR(mu), C.cR(sig), kappa_model(kkind, kval)
                     if name == "UCB":
                         sc = abs(mu) + abs(kappa * sig)
                         goals.append(simple_goal(f"{k}_call", f"ucb_call {kq} {m} {s}", v_call, sc))
@@ -295,7 +367,7 @@ def rebuild_acq(rec):
         a.update_gp(gp)
         a.mu_max = rec["ymax"]
     elif rec["acq"] == "UCB":
-        a = UCB(kappa=rec["kappa"])
+        a = make_ucb(rec.get("kappa_kind", "float"), rec.get("kappa_arg", rec["kappa"]))
         a.update_gp(gp)
     else:
         a = MV()
@@ -329,7 +401,9 @@ def acq_oracle(rec):
     elif rec["acq"] == "UCB":
         ref = mu + rec["kappa"] * sig
         if not (abs(v - ref) <= 1e-9 * (abs(mu) + abs(rec["kappa"] * sig))):
-            bad.append(f"UCB(x) = {v!r} but mu + kappa sigma = {ref!r}")
+            bad.append(f"UCB(x) = {v!r} but mu + kappa sigma = {ref!r} (UpperConfidenceBound built with "
+                       f"kappa {rec.get('kappa_kind', 'float')}:{rec.get('kappa_arg', rec['kappa'])!r}, "
+                       f"the object holds kappa = {getattr(a, 'kappa', None)!r})")
         if not (abs(o + ref) <= 1e-9 * (abs(mu) + abs(rec["kappa"] * sig))):
             bad.append(f"UCB opt_func(x) = {o!r} but -(mu + kappa sigma) = {-ref!r}")
     else:
@@ -559,7 +633,8 @@ def run_sequence(cfg):
                         nx = np.array(pt)
                 last_prop = None
                 ny = objective(pt)
-                ne = 0.125 if cfg["with_err"] else None
+                # the error of the new point is sometimes exactly 0.0 (valid, and falsy)
+                ne = (0.0 if r.random() < 0.25 else 0.125) if cfg["with_err"] else None
                 ny_in = np.array(ny) if cfg["y_kind"] == "nd" else ny
                 ne_in = None if ne is None else (np.array(ne) if cfg["y_kind"] == "nd" else ne)
                 held = [G.x, G.y, G.y_err]           # the optimiser's previous arrays
@@ -688,14 +763,450 @@ def sequence_findings(res):
     return bad
 
 
+# ============================================================ (d) worlds: several optimisers alive
+def _world_problem(j, d):
+    """bounds and value offset of optimiser j: the boxes are disjoint and the values of
+    different optimisers differ by tens, so a foreign regressor / incumbent is far away"""
+    lo = -2.0 + 12.0 * j
+    return [(lo, lo + 4.0 + 0.5 * k) for k in range(d)], 64.0 * j, lo + 2.0
+
+
+def _world_value(pt, centre, offset):
+    v = np.asarray(pt, dtype=float).reshape(-1) - centre
+    return round((math.sin(float(v.sum())) + 0.25 * float(v[0])) * 1024) / 1024 + offset
+
+
+def _acq_expected(kind, kappa, mu, sig, ymax, dmu, dvar):
+    """The property itself for one acquisition value: returns (value, objective, gradient or
+    None, skipped-reason or None)."""
+    if kind == "EI":
+        z = (mu - ymax) / sig
+        if not (-7.5 <= z <= 7.5):
+            return None, None, None, "EI z out of reach of the quadrature"
+        ref = definition_quad(mu, sig, ymax)
+        return ref, (-math.log(ref) if ref > 0 else None), None, None
+    if kind == "UCB":
+        ref = mu + kappa * sig
+        return ref, -ref, [-(a + 0.5 * kappa * b / sig) for a, b in zip(dmu, dvar)], None
+    return sig * sig, -sig * sig, [-b for b in dvar], None
+
+
+def run_world(cfg):
+    """Child-process worker: one process in which several GpOptimiser objects live, their
+    operations interleaved as cfg["events"] says.  After every event every optimiser is observed."""
+    out = {"cfg": cfg, "steps": [], "error": None, "opts": []}
+    try:
+        import random as _random
+        GpOptimiser, _, EI, UCB, MV = impl()
+        classes = {"EI": EI, "UCB": UCB, "MV": MV}
+        r = _random.Random(cfg["seed"])
+        np.random.seed(cfg["seed"] % (2 ** 31))
+        heap = []          # acquisition objects in order of allocation (mirrors the model's heap)
+        opts = []          # the optimisers in order of construction
+        info = []          # per optimiser: plain data about its problem
+        held = []          # per optimiser: the arrays the caller passed to the constructor
+        pending = {}       # optimiser -> object returned by its last propose_evaluation
+        for k, evn in enumerate(cfg["events"]):
+            step = {"event": evn, "k": k}
+            try:
+                with warnings.catch_warnings():
+                    warnings.simplefilter("ignore")
+                    if evn["op"] == "L":
+                        heap.append(make_ucb(evn["kappa_kind"], evn["kappa_arg"]) if evn["acq"] == "UCB"
+                                    else classes[evn["acq"]]())
+                    elif evn["op"] == "N":
+                        j, d = len(opts), evn["d"]
+                        bounds, offset, centre = _world_problem(j, d)
+                        n = 3 + d
+                        rows = None
+                        while rows is None or len({tuple(q) for q in rows}) < n:
+                            rows = [[centre + r.randint(-16, 16) / 8.0 for _ in range(d)] for _ in range(n)]
+                        yv = [_world_value(q, centre, offset) for q in rows]
+                        shift = max(yv) if evn["shift"] == "max0" else 0.0
+                        yv = [v - shift for v in yv]
+                        ev = [r.choice([0.0625, 0.125, 0.25]) for _ in rows] if evn["with_err"] else None
+                        x_in = np.array([q[0] for q in rows]) if (evn["x_kind"] == "nd1" and d == 1) else np.array(rows)
+                        y_in = np.array(yv)
+                        e_in = None if ev is None else np.array(ev)
+                        b_in = np.array(bounds, dtype=float) if evn["bounds_kind"] == "nd" else list(bounds)
+                        kw = {}
+                        if evn["acq_arg"] == "class":
+                            kw["acquisition"] = classes[evn["acq"]]
+                        elif evn["acq_arg"] == "instance":
+                            kw["acquisition"] = heap[evn["ref"]]
+                        G = GpOptimiser(x_in, y_in, bounds=b_in, y_err=e_in, optimizer=cfg["optimizer"], **kw)
+                        if evn["acq_arg"] != "instance":
+                            heap.append(G.acquisition)
+                        opts.append(G)
+                        held.append([x_in, y_in, e_in, b_in])
+                        held[-1].append([_snap(a) for a in held[-1]])
+                        queries = [[lo + (hi - lo) * r.uniform(0.03, 0.97) for lo, hi in bounds] for _ in range(10)]
+                        info.append({"d": d, "bounds": bounds, "offset": offset, "centre": centre,
+                                     "shift": shift, "with_err": evn["with_err"], "queries": queries,
+                                     "acq": evn["acq"], "kappa": evn.get("kappa", 2.0),
+                                     "init": {"x": rows, "y": yv, "yerr": ev}})
+                    elif evn["op"] == "P":
+                        j = evn["i"]
+                        p = (opts[j].propose_evaluation(optimizer=evn["override"]) if evn.get("override")
+                             else opts[j].propose_evaluation())
+                        pv = np.atleast_1d(np.asarray(p, dtype=float)).reshape(-1).tolist()
+                        step["proposal"] = pv
+                        step["in_bounds"] = len(pv) == info[j]["d"] and all(
+                            lo <= v <= hi for v, (lo, hi) in zip(pv, info[j]["bounds"]))
+                        pending[j] = p
+                    else:
+                        j = evn["i"]
+                        inf = info[j]
+                        if j in pending:
+                            nx = pending.pop(j)
+                            pt = np.atleast_1d(np.asarray(nx, dtype=float)).reshape(-1).tolist()
+                        else:
+                            pt = [inf["centre"] + r.randint(-15, 15) / 8.0 + 1 / 64 for _ in range(inf["d"])]
+                            nx = np.array(pt)
+                        ny = _world_value(pt, inf["centre"], inf["offset"]) - inf["shift"]
+                        ne = (0.0 if r.random() < 0.25 else 0.125) if inf["with_err"] else None
+                        step["new"] = {"x": pt, "y": ny, "err": ne}
+                        opts[j].add_evaluation(nx, np.array(ny), None if ne is None else np.array(ne))
+            except Exception as e:
+                step["exception"] = repr(e) + " | " + traceback.format_exc()[-600:]
+                out["steps"].append(step)
+                break
+            # ---- observe EVERY optimiser
+            obs = []
+            for j, G in enumerate(opts):
+                a, inf = G.acquisition, info[j]
+                ob = {"x": np.asarray(G.x, dtype=float).reshape(len(G.y), -1).tolist(),
+                      "y": np.asarray(G.y, dtype=float).tolist(),
+                      "yerr": None if G.y_err is None else np.asarray(G.y_err, dtype=float).tolist(),
+                      "opt_mu_max": float(G.mu_max) if hasattr(G, "mu_max") else None,
+                      "acq_type": type(a).__name__,
+                      "acq_mu_max": float(a.mu_max),
+                      "owner": next((m for m, H in enumerate(opts) if a.gp is H.gp), 999),
+                      "n": int(len(a.gp.y)),
+                      "shared_with": [m for m, H in enumerate(opts) if m != j and H.acquisition is a],
+                      "gp_matches": bool(np.array_equal(np.asarray(G.gp.x, dtype=float).reshape(len(G.gp.y), -1),
+                                                        np.asarray(G.x, dtype=float).reshape(len(G.y), -1))
+                                         and np.array_equal(np.asarray(G.gp.y, dtype=float), G.y)),
+                      "caller_changed": [nm for nm, arr, sn in zip(("x", "y", "y_err", "bounds"), held[j][:4], held[j][4])
+                                         if _snap(arr) != sn]}
+                # the acquisition of THIS optimiser against ITS OWN regressor and ITS OWN data
+                own_max = max(ob["y"])
+                pick = None
+                # candidates: fixed random points of the box, then points next to the best datum
+                # (there |z| is small); a function of the optimiser's OWN data only
+                best = ob["x"][ob["y"].index(own_max)]
+                near = []
+                for off in (0.3, -0.3, 0.1, -0.1, 0.03, -0.03, 0.6, -0.6):
+                    c0 = min(max(best[0] + off, inf["bounds"][0][0]), inf["bounds"][0][1])
+                    near.append([c0] + list(best[1:]))
+                for q in inf["queries"] + near:
+                    qa = np.array(q)
+                    mu_a, sig_a = G.gp(qa)
+                    mu, sig = float(mu_a[0]), float(sig_a[0])
+                    if sig > 1e-6 and (inf["acq"] != "EI" or abs((mu - own_max) / sig) <= 7.0):
+                        pick = (q, mu, sig)
+                        break
+                if pick is not None:
+                    q, mu, sig = pick
+                    qa = np.array(q)
+                    dmu_a, dvar_a = G.gp.spatial_derivatives(qa)
+                    dmu = np.atleast_1d(np.asarray(dmu_a, dtype=float)).tolist()
+                    dvar = np.atleast_1d(np.asarray(dvar_a, dtype=float)).tolist()
+                    val = {"q": q, "mu": mu, "sig": sig, "own_max": own_max, "dmu": dmu, "dvar": dvar}
+                    try:
+                        with warnings.catch_warnings():
+                            warnings.simplefilter("ignore")
+                            val["call"] = float(a(qa))
+                            val["opt"] = float(a.opt_func(qa))
+                            fv, fg = a.opt_func_gradient(qa)
+                            val["optg"] = float(np.asarray(fv).reshape(-1)[0])
+                            val["grad"] = np.atleast_1d(np.asarray(fg, dtype=float)).tolist()
+                    except Exception as e:
+                        val["error"] = repr(e)
+                    with warnings.catch_warnings():
+                        warnings.simplefilter("ignore")
+                        ref, oref, gref, skipped = _acq_expected(inf["acq"], inf["kappa"], mu, sig, own_max, dmu, dvar)
+                    val.update(ref=ref, opt_ref=oref, grad_ref=gref, skipped=skipped)
+                    ob["value"] = val
+                obs.append(ob)
+            step["obs"] = obs
+            out["steps"].append(step)
+        out["opts"] = info
+    except Exception as e:
+        out["error"] = repr(e) + "\n" + traceback.format_exc()[-1500:]
+    return out
+
+
+WORLD_TEMPLATES = [
+    ["N0", "N1", "A0", "A1", "P0", "A0", "P1"],
+    ["N0", "A0", "N1", "P0", "A1", "A0"],
+    ["N0", "N1", "P1", "P0", "A1", "A0"],
+    ["N0", "N1", "N2", "A1", "A0", "A2"],
+]
+
+
+def world_configs(tier):
+    """Interleaved lives of 2..3 optimisers.  The first four worlds of each round use the
+    DEFAULT acquisition everywhere (the argument is omitted), the others mix default / class /
+    caller-made instance (never one instance for two optimisers: that sharing would be the
+    caller's own doing)."""
+    r = C.rng_for(PROP, "world")
+    cfgs = []
+    rounds = 1 if tier == "quick" else 4
+    for rnd in range(rounds):
+        plans = [(t, "default", opt) for t, opt in zip(WORLD_TEMPLATES, ("bfgs", "diffev", "bfgs", "diffev"))]
+        for m in range(6 if tier == "quick" else 10):
+            if r.random() < 0.5:
+                t = list(r.choice(WORLD_TEMPLATES))
+            else:
+                # a random interleaving: N0 first, N1 among the next two, then anything alive
+                t, alive, n_tot = ["N0"], 1, r.choice([2, 2, 3])
+                for pos in range(r.randint(5, 6)):
+                    if alive < n_tot and (pos == 1 or (pos == 0 and r.random() < 0.5) or r.random() < 0.3):
+                        t.append(f"N{alive}")
+                        alive += 1
+                    else:
+                        t.append(r.choice("APA") + str(r.randrange(alive)))
+                if alive < 2:
+                    t.insert(1, "N1")
+            plans.append((t, "mixed", ("bfgs", "diffev")[m % 2]))
+        for t, mode, optimizer in plans:
+            events, heap_n = [], 0
+            for w in t:
+                if w[0] == "N":
+                    arg = "default" if mode == "default" else r.choice(["default", "default", "class", "instance"])
+                    acq = "EI" if arg == "default" else r.choice(["EI", "EI", "UCB", "MV"])
+                    kkind, kval = r.choice([("float", 0.0), ("float", 0.5), ("default", None), ("int", 0), ("float", 2.0)])
+                    d = r.choice([1, 1, 2])
+                    evn = {"op": "N", "acq_arg": arg, "acq": acq, "d": d,
+                           "with_err": r.random() < 0.3, "shift": r.choice(["none", "none", "max0"]),
+                           "x_kind": r.choice(["nd1", "nd2"]), "bounds_kind": r.choice(["nd", "list"]),
+                           "kappa": 2.0}
+                    if arg == "instance":
+                        events.append({"op": "L", "acq": acq, "kappa_kind": kkind, "kappa_arg": kval})
+                        evn["ref"] = heap_n
+                        evn["kappa"] = kappa_expected(kkind, kval)
+                        heap_n += 1
+                    else:
+                        heap_n += 1
+                    events.append(evn)
+                elif w[0] == "A":
+                    events.append({"op": "A", "i": int(w[1:])})
+                else:
+                    events.append({"op": "P", "i": int(w[1:]), "override": r.choice([None, None, "bfgs", "diffev"])})
+            cfgs.append({"events": events, "optimizer": optimizer, "mode": mode,
+                         "word": " ".join(t), "seed": r.randint(1, 10 ** 9)})
+    return cfgs
+
+
+def _qrows(rows):
+    return C.clist([C.clist([C.cq(v) for v in row]) for row in rows])
+
+
+def _qopt_list(v):
+    return "None" if v is None else "(Some " + C.clist([C.cq(t) for t in v]) + ")"
+
+
+def world_case_text(res):
+    """(ops, observations) up to the last event that completed"""
+    ops, obs = [], []
+    n_opt = 0
+    for st in res["steps"]:
+        if "obs" not in st:
+            break
+        evn = st["event"]
+        if evn["op"] == "L":
+            ops.append("W_alloc")
+        elif evn["op"] == "N":
+            ini = res["opts"][n_opt]["init"] if n_opt < len(res["opts"]) else None
+            if ini is None:
+                break
+            n_opt += 1
+            arg = {"default": "Acq_default", "class": "Acq_class"}.get(evn["acq_arg"]) or f"(Acq_instance {C.cnat(evn['ref'])})"
+            ops.append(f"W_new {arg} {_qrows(ini['x'])} {C.clist([C.cq(v) for v in ini['y']])} {_qopt_list(ini['yerr'])}")
+        elif evn["op"] == "A":
+            nw = st["new"]
+            ne = "None" if nw["err"] is None else f"(Some {C.cq(nw['err'])})"
+            ops.append(f"W_add {C.cnat(evn['i'])} {C.clist([C.cq(v) for v in nw['x']])} {C.cq(nw['y'])} {ne}")
+        else:
+            ops.append(f"W_propose {C.cnat(evn['i'])}")
+        row = []
+        for ob in st["obs"]:
+            mm = "None" if ob["opt_mu_max"] is None else f"(Some {C.cq(ob['opt_mu_max'])})"
+            row.append(f"({_qrows(ob['x'])}, {C.clist([C.cq(v) for v in ob['y']])}, {_qopt_list(ob['yerr'])}, {mm}, "
+                       f"({C.cq(ob['acq_mu_max'])}, {C.cnat(ob['owner'])}, {C.cnat(ob['n'])}))")
+        obs.append(C.clist(row))
+    return "(" + C.clist(ops, ";\n   ") + ",\n  " + C.clist(obs, ";\n   ") + ")"
+
+
+def _ev_name(evn):
+    if evn["op"] == "L":
+        return f"{evn['acq']}() made by the caller"
+    if evn["op"] == "N":
+        how = {"default": "default acquisition", "class": f"acquisition={evn['acq']} class",
+               "instance": f"acquisition=<the caller's {evn['acq']} instance>"}[evn["acq_arg"]]
+        return f"GpOptimiser(...) constructed ({how})"
+    return ("add_evaluation on" if evn["op"] == "A" else "propose_evaluation on") + f" optimiser {evn['i']}"
+
+
+def world_findings(res):
+    """[R] the property itself on one world.  Returns list of (key, what)."""
+    bad = []
+    if res["error"]:
+        return [("C18/exception", "world run failed: " + res["error"].splitlines()[0])]
+    prev = None
+    for st in res["steps"]:
+        evn, k = st["event"], st["k"]
+        after = f"after event {k} ({_ev_name(evn)})"
+        if "exception" in st:
+            bad.append(("C18/exception", f"{_ev_name(evn)} failed on a valid input with other optimisers alive: "
+                        + st["exception"].split(" | ")[0]))
+            break
+        if evn["op"] == "P" and not st["in_bounds"]:
+            bad.append(("C18/proposal-bounds", f"{after}: proposal {st['proposal']} outside its bounds"))
+        for j, ob in enumerate(st["obs"]):
+            inf = res["opts"][j] if j < len(res["opts"]) else None
+            own_max = max(ob["y"])
+            if ob["acq_mu_max"] != own_max:
+                bad.append(("C18/incumbent", f"{after}: the acquisition of optimiser {j} has incumbent mu_max = "
+                            f"{ob['acq_mu_max']!r} but the maximum of its own data is {own_max!r}"))
+            if ob["opt_mu_max"] is not None and ob["opt_mu_max"] != own_max:
+                bad.append(("C18/incumbent", f"{after}: GpOptimiser.mu_max of optimiser {j} = {ob['opt_mu_max']!r} "
+                            f"but the maximum of its own data is {own_max!r}"))
+            if ob["owner"] != j or ob["n"] != len(ob["y"]):
+                whose = f"the regressor of optimiser {ob['owner']}" if ob["owner"] != 999 else "a regressor no optimiser holds any more"
+                bad.append(("C18/acquisition-model", f"{after}: the acquisition of optimiser {j} evaluates {whose} "
+                            f"({ob['n']} points; its own has {len(ob['y'])})"
+                            + (f"; it is the same object as the acquisition of optimiser(s) {ob['shared_with']}"
+                               if ob["shared_with"] else "")))
+            if not ob["gp_matches"]:
+                bad.append(("C18/refit", f"{after}: the regressor of optimiser {j} is not fitted to its data"))
+            if ob["caller_changed"]:
+                bad.append(("C18/caller-arrays", f"{after}: the caller's {', '.join(ob['caller_changed'])} of optimiser {j} was modified"))
+            v = ob.get("value")
+            if v is not None and inf is not None:
+                kind = inf["acq"]
+                if "error" in v:
+                    bad.append(("C18/acquisition/" + kind, f"{after}: acquisition of optimiser {j} failed at its query point "
+                                f"{v['q']}: {v['error']}"))
+                elif v["skipped"] is None:
+                    tol = 1e-6 * abs(v["ref"]) if kind == "EI" else 1e-9 * (abs(v["mu"]) + abs(inf["kappa"] * v["sig"]) + v["sig"] ** 2)
+                    name = {"EI": "E max(f - ymax, 0)", "UCB": "mu + kappa sigma", "MV": "sigma^2"}[kind]
+                    if not (abs(v["call"] - v["ref"]) <= tol):
+                        bad.append(("C18/acquisition/" + kind, f"{after}: {kind}(x) of optimiser {j} at x = {v['q']} is {v['call']!r} "
+                                    f"but {name} under its own regressor (mu = {v['mu']!r}, sigma = {v['sig']!r}) and its own "
+                                    f"incumbent {v['own_max']!r} is {v['ref']!r}"))
+                    if v["opt_ref"] is not None and not (abs(v["opt"] - v["opt_ref"]) <= (1e-6 if kind == "EI" else 1e-9) * max(1, abs(v["opt_ref"]))):
+                        bad.append(("C18/acquisition/" + kind, f"{after}: opt_func(x) of optimiser {j} is {v['opt']!r} but the "
+                                    f"objective under its own regressor and incumbent is {v['opt_ref']!r}"))
+                    if v["optg"] != v["opt"] and not (abs(v["optg"] - v["opt"]) <= 1e-9 * max(1, abs(v["opt"]))):
+                        bad.append(("C18/acquisition/" + kind, f"{after}: opt_func_gradient value {v['optg']!r} differs from opt_func {v['opt']!r} (optimiser {j})"))
+                    if v["grad_ref"] is not None:
+                        for c, (g, gr) in enumerate(zip(v["grad"], v["grad_ref"])):
+                            sc = abs(v["dmu"][c]) + abs(0.5 * inf["kappa"] * v["dvar"][c] / v["sig"]) + abs(v["dvar"][c])
+                            if not (abs(g - gr) <= 1e-9 * sc):
+                                bad.append(("C18/acquisition/" + kind, f"{after}: gradient[{c}] of optimiser {j} is {g!r}, "
+                                            f"the gradient of its own objective is {gr!r}"))
+        # an operation on one optimiser leaves every other optimiser bit-for-bit as it was
+        if prev is not None:
+            target = evn.get("i") if evn["op"] == "A" else None
+            for j, (o0, o1) in enumerate(zip(prev, st["obs"])):
+                if j == target:
+                    continue
+                keys = ("x", "y", "yerr", "opt_mu_max", "acq_mu_max", "owner", "n")
+                diff = [kk for kk in keys if o0[kk] != o1[kk]]
+                v0, v1 = o0.get("value"), o1.get("value")
+                if v0 and v1 and "error" not in v0 and "error" not in v1 and v0["q"] == v1["q"]:
+                    diff += [kk for kk in ("call", "opt", "optg", "grad") if v0.get(kk) != v1.get(kk)]
+                if diff:
+                    bad.append(("C18/interference", f"{after}: optimiser {j}, which was not operated on, changed: "
+                                + ", ".join(f"{kk}: {o0.get(kk, (v0 or {}).get(kk))!r} -> {o1.get(kk, (v1 or {}).get(kk))!r}"
+                                            for kk in diff[:3])))
+        prev = st.get("obs")
+    return bad
+
+
+def world_goals(results, tier):
+    """interval goals for a sample of world observations: the acquisition value / objective /
+    gradient of an optimiser against the model at ITS OWN regressor's moments and ITS OWN
+    incumbent (the maximum of the y the world correspondence ties to the model's st_ymax).
+    Observations made right after ANOTHER optimiser was constructed or updated come first."""
+    pool = []
+    for wi, res in enumerate(results):
+        if res["error"]:
+            continue
+        for st in res["steps"]:
+            if "obs" not in st:
+                continue
+            evn = st["event"]
+            for j, ob in enumerate(st["obs"]):
+                v = ob.get("value")
+                if not v or "error" in v or j >= len(res["opts"]):
+                    continue
+                if not all(map(math.isfinite, [v["call"], v["opt"], v["optg"]] + v["grad"])):
+                    continue
+                foreign = (evn["op"] == "A" and evn["i"] != j) or (evn["op"] == "N" and j != len(st["obs"]) - 1)
+                pool.append((0 if foreign else 1, wi, st["k"], j, v, res["opts"][j]))
+    pool.sort(key=lambda t: t[:4])
+    budget = 10 if tier == "quick" else 80
+    # spread over the worlds: at most two observations per world in the first pass
+    chosen, per = [], {}
+    for t in pool:
+        if per.get(t[1], 0) < 2 and len(chosen) < budget:
+            chosen.append(t)
+            per[t[1]] = per.get(t[1], 0) + 1
+    goals, index = [], {}
+    for (_, wi, k, j, v, inf) in chosen:
+        gid0 = f"w{wi}s{k}o{j}"
+        index[gid0] = (wi, k, j)
+        mu, sig, ymax, d = v["mu"], v["sig"], v["own_max"], len(v["grad"])
+        if inf["acq"] == "EI":
+            goals.append(ei_goal("call", gid0 + "_call", mu, sig, ymax, v["call"]))
+            goals.append(ei_goal("opt", gid0 + "_opt", mu, sig, ymax, v["opt"]))
+            goals.append(ei_goal("opt", gid0 + "_optg", mu, sig, ymax, v["optg"]))
+            for c in range(d):
+                goals.append(ei_goal("grad", gid0 + f"_grad{c}", mu, sig, ymax, v["grad"][c], v["dmu"][c], v["dvar"][c]))
+        elif inf["acq"] == "UCB":
+            kappa = inf["kappa"]
+            m, s_, kq = C.cR(mu), C.cR(sig), f"(ucb_kappa (Some {C.cR(kappa)}))"
+            sc = abs(mu) + abs(kappa * sig)
+            goals.append(simple_goal(gid0 + "_call", f"ucb_call {kq} {m} {s_}", v["call"], sc))
+            goals.append(simple_goal(gid0 + "_opt", f"ucb_opt_func {kq} {m} {s_}", v["opt"], sc))
+            goals.append(simple_goal(gid0 + "_optg", f"ucb_opt_func {kq} {m} {s_}", v["optg"], sc))
+            for c in range(d):
+                sc2 = abs(v["dmu"][c]) + abs(0.5 * kappa * v["dvar"][c] / sig)
+                goals.append(simple_goal(gid0 + f"_grad{c}", f"ucb_opt_grad {kq} {s_} {C.cR(v['dmu'][c])} {C.cR(v['dvar'][c])}",
+                                         v["grad"][c], sc2))
+        else:
+            s_ = C.cR(sig)
+            goals.append(simple_goal(gid0 + "_call", f"mv_call {s_}", v["call"], sig * sig))
+            goals.append(simple_goal(gid0 + "_opt", f"mv_opt_func {s_}", v["opt"], sig * sig))
+            goals.append(simple_goal(gid0 + "_optg", f"mv_opt_func {s_}", v["optg"], sig * sig))
+            for c in range(d):
+                goals.append(simple_goal(gid0 + f"_grad{c}", f"mv_opt_grad {C.cR(v['dvar'][c])}", v["grad"][c], abs(v["dvar"][c])))
+    return goals, index
+
+
 # ============================================================ driver
 def run(rep: C.Report, tier: str) -> int:
     C.clean_gen(PROP)
     C.prove_and_audit(rep, PROP, THEOREMS)
+    try:      # expected improvement as an improper integral over the predictive normal (Proofs/EiIntegral.v)
+        _ei = ["C18_ei_is_expected_improvement", "C18_ei_call_is_expected_improvement", "C18_ei_limit_of_proper_integrals",
+               "C18_ei_proper_integrals", "C18_gauss_pdf_vanishes", "C18_is_RInt_gen_of_primitive"]
+        _a = C.coq_audit(PROP + "_integral", _ei, "IT.Properties.C18Integral")
+        rep.obligation(True, len(_ei))
+        rep.coverage["ei_integral_audit"] = _a
+    except C.ProofFailure as _e:
+        rep.obligation(False, 6)
+        rep.violation("C18/proof", f"proof obligation no longer checks: {_e.what}",
+                      {"theorem_or_correspondence": _e.what, "log": _e.log[-1000:]}, False)
 
     # start the optimiser lives first (they run in worker processes meanwhile)
     cfgs = sequence_configs(tier)
+    wcfgs = world_configs(tier)
     pool = ProcessPoolExecutor(max_workers=14)
+    wfuts = [pool.submit(run_world, c) for c in wcfgs]      # the longer lives first
     futs = [pool.submit(run_sequence, c) for c in cfgs]
 
     # ---- (a) acquisition values and gradients
@@ -709,6 +1220,12 @@ def run(rep: C.Report, tier: str) -> int:
     for k in ei_idx[::step]:
         rc = recs[k]
         goals.append(definition_goal(f"{k}_definition", rc["mu"], rc["sig"], rc["ymax"], rc["call"]))
+    # the worlds are done by now (a few seconds of work in the pool): their interval goals go
+    # into the same batch
+    wresults = [f.result() for f in wfuts]
+    wgoals, windex = world_goals(wresults, tier)
+    n_acq_goals = len(goals)
+    goals = goals + wgoals
     # heavy goals (far tail) spread over the chunks
     heavy = [g for g in goals if "i_degree" in g[2]]
     light = [g for g in goals if "i_degree" not in g[2]]
@@ -726,8 +1243,11 @@ def run(rep: C.Report, tier: str) -> int:
     rep.coverage["t_acq_goals_s"] = round(_t.time() - t0, 1)
     rep.obligation(True, len(goals) - len(failed))
     rep.obligation(False, len(failed))
-    rep.coverage["interval_goals"] = len(goals)
+    rep.coverage["interval_goals"] = n_acq_goals
+    rep.coverage["world_interval_goals"] = len(wgoals)
     rep.coverage["interval_goals_failed"] = len(failed)
+    wfailed = [(gid, log) for gid, log in failed if gid.startswith("w")]
+    failed = [(gid, log) for gid, log in failed if not gid.startswith("w")]
     for b in broken:
         rep.obligation(False)
         rep.violation("C18/goal-file", "a file of interval goals could not be processed",
@@ -864,31 +1384,106 @@ def run(rep: C.Report, tier: str) -> int:
     if results:
         rep.sample({"sequence": results[0]["cfg"], "events": results[0]["events"][:2]})
 
+    # ---- (d) worlds: several optimisers alive in one process
+    wfinds = []
+    for wi, res in enumerate(wresults):
+        cfg = res["cfg"]
+        rep.case(("world", json.dumps(cfg, sort_keys=True)))
+        rep.count(f"world optimizer={cfg['optimizer']} acquisitions={cfg['mode']}")
+        rep.count(f"world optimisers={sum(1 for e in cfg['events'] if e['op'] == 'N')}")
+        for e in cfg["events"]:
+            if e["op"] == "N":
+                rep.count(f"world acquisition={e['acq_arg']}:{e['acq']}")
+        rep.count("world observations", sum(len(st.get("obs", [])) for st in res["steps"]))
+        finds = world_findings(res)
+        wfinds.append(finds)
+        seen = set()
+        for key, what in finds:
+            if key in seen:
+                continue
+            seen.add(key)
+            rep.violation(key, what, {"case": {"kind": "world", "cfg": cfg}}, True)
+    rep.coverage["worlds"] = len(wresults)
+    live = [(wi, world_case_text(res)) for wi, res in enumerate(wresults) if res["error"] is None]
+    files, index = [], []
+    CH = 4
+    for i in range(0, len(live), CH):
+        ch = live[i:i + CH]
+        body = "Definition cases : list world_case :=\n " + C.clist([t for _, t in ch], ";\n ") + "."
+        files.append(C.write_case_file(PROP, f"world_{i // CH}", CASE_HEADER, body,
+                                       ["failing check_world_case cases 0", "world_diffs cases"]))
+        index.append([wi for wi, _ in ch])
+    for p, idx, (ok, res, log) in zip(files, index, C.run_case_files(files, jobs=6)):
+        if not ok or 0 not in res or 1 not in res:
+            rep.obligation(False)
+            rep.violation("C18/world-run", f"case file {p.name} did not evaluate",
+                          {"theorem_or_correspondence": p.name, "log": log}, False)
+            continue
+        rep.obligation(True)
+        for j in res[0]:
+            wi = idx[j]
+            stepno = res[1][j] - 1 if j < len(res[1]) else -1
+            cfg = wresults[wi]["cfg"]
+            evs = wresults[wi]["steps"]
+            where = (f"after event {stepno} ({_ev_name(evs[stepno]['event'])})" if 0 <= stepno < len(evs) else "")
+            visible = bool(wfinds[wi])
+            if visible:
+                continue          # already reported above, with the concrete failure
+            rep.violation("C18/world",
+                          f"world '{cfg['word']}': the optimisers differ from Model.OptimiserWorld.wstep {where}",
+                          {"theorem_or_correspondence": "Model.OptimiserWorld.check_world_case",
+                           "case": {"kind": "world", "cfg": cfg}}, False)
+    rep.coverage["world_traces_validated_against_impl"] = len(live)
+    if wgoals:
+        seenw = set()
+        for gid, log in wfailed:
+            wi, k, j = windex[gid.rsplit("_", 1)[0]]
+            if wi in seenw or wfinds[wi]:
+                continue
+            seenw.add(wi)
+            rep.violation("C18/acquisition-correspondence",
+                          f"world '{wresults[wi]['cfg']['word']}': acquisition of optimiser {j} after event {k} and "
+                          f"the model at its own regressor / incumbent disagree ({gid})",
+                          {"theorem_or_correspondence": "RealModel.Acquisition vs acquisition.py " + gid,
+                           "case": {"kind": "world", "cfg": wresults[wi]["cfg"]}}, False)
+    rep.coverage["t_worlds_done_s"] = round(_t.time() - t0, 1)
+    if wresults and wresults[0]["steps"]:
+        st0 = wresults[0]["steps"][min(1, len(wresults[0]["steps"]) - 1)]
+        rep.sample({"world": wresults[0]["cfg"]["word"], "event": st0["event"],
+                    "observed": [{k: ob[k] for k in ("y", "acq_mu_max", "owner", "n")} for ob in st0.get("obs", [])]})
+
     rep.assumptions = [
         "mu, sigma, dmu, dvar are read from the real GpRegressor (C02/C16 are about those); the "
         "model takes them as exact rationals",
         "scipy.special.erf / erfcx are modelled by their integral definitions (Acquisition.erf, erfcx)",
         "the far tail is sampled down to z = -8; for z < -8 the agreement of the two branches is "
         "theorem C18_ei_branches_agree (all z), not sampled",
-        "sigma (z Phi + phi) = E max(f - ymax, 0) is not proved as an integral identity; it is "
-        "enclosed by `integral` at sampled points (goal *_definition) and characterised by "
-        "C18_ei_antiderivative",
+        "sigma (z Phi + phi) = E max(f - ymax, 0) is proved as an improper integral over the predictive normal for all "
+        "mu, ymax, sigma > 0 (Properties/C18Integral.v); it is additionally enclosed by `integral` at sampled points "
+        "(goal *_definition)",
         "scipy.optimize (L-BFGS-B, differential_evolution) keeping iterates inside the bounds is "
         "observed [R], not proved",
+        "several optimisers: object identity of acquisition objects / regressors is modelled by heap "
+        "indices (Model.OptimiserWorld); a caller handing ONE acquisition instance to two optimisers "
+        "is outside the theorem (hypothesis unshared_run) and is not generated",
     ]
     ax = (rep.coverage.get("proof_audit") or {}).get("axioms_used", [])
     return rep.finish(
         level="proof",
         checker_cmd="make -C /verif/coq (coqc 8.16.1) + coqc on coq/gen/C18/acq_*.v (coq-interval "
-                    "integral/interval) + coq/gen/C18/{starts,add}_*.v (vm_compute)",
+                    "integral/interval) + coq/gen/C18/{starts,add,world}_*.v (vm_compute)",
         trusted_base=C.KERNEL_TB + ["coq-interval 4.x reflexive evaluator (Uint63/Bignums primitives)",
                                     "axioms: " + (", ".join(ax) if ax else "none")],
         rule="EI/UCB/MaxVariance at random query points of real fitted GpRegressors (d = 1..3), EI "
              "incumbent steered so that z covers [-8, 8] with a cluster at -3 +- {0,1e-11,1e-7,1e-4,...} "
              "plus natural incumbents; starting_positions with scripted uniforms on boxes with data "
              "inside / on the edge / outside; all 30 propose/add words of length <= 4 (run as the 16 words of length 4, checked after every operation) x {bfgs, diffev} "
-             "with ndarray (1-D, 2-D), list, view, row and proposal-object arguments; distinct = "
-             "distinct (kind, inputs)")
+             "with ndarray (1-D, 2-D), list, view, row and proposal-object arguments; UpperConfidenceBound "
+             "built with kappa omitted / 0.0 / int 0 / numpy 0.0 / positional / 1e-3 .. 16 (cycled, all in "
+             "every run), EI with incumbent exactly 0.0; worlds of 2..3 optimisers alive in one process "
+             "(default acquisition everywhere in four fixed interleavings, default / class / caller-made "
+             "instance mixed in random ones, data maxima of exactly 0.0, propose with optimizer override), "
+             "every optimiser observed after every operation; distinct = distinct (kind, inputs)")
 
 
 # ============================================================ replay
@@ -907,6 +1502,15 @@ def replay(path):
         res = run_sequence(case["cfg"])
         finds = sequence_findings(res)
         print("events:", json.dumps(C.jsonable(res.get("events")), indent=1)[:3000])
+        print("property failures:", finds)
+        return 1 if finds else 0
+    if case["kind"] == "world":
+        res = run_world(case["cfg"])
+        finds = world_findings(res)
+        for st in res["steps"]:
+            print("event", st["k"], _ev_name(st["event"]), "->",
+                  [{k: ob[k] for k in ("y", "acq_mu_max", "owner", "n", "shared_with")} for ob in st.get("obs", [])]
+                  if "obs" in st else st.get("exception"))
         print("property failures:", finds)
         return 1 if finds else 0
     if case["kind"] == "starts":
